@@ -91,8 +91,20 @@ func valToken(b []byte) string {
 	return "raw:" + hex.EncodeToString(b)
 }
 
+// value = token | pad pseudo-random (incompressible, deterministic) bytes, so that table sizes follow the requested padding
 func valBytes(tok string, pad int) []byte {
-	return []byte(tok + "|" + strings.Repeat("x", pad))
+	b := make([]byte, 0, len(tok)+1+pad)
+	b = append(b, tok...)
+	b = append(b, '|')
+	x := uint32(2166136261)
+	for i := 0; i < len(tok); i++ {
+		x = (x ^ uint32(tok[i])) * 16777619
+	}
+	for i := 0; i < pad; i++ {
+		x = x*1664525 + 1013904223
+		b = append(b, byte(x>>24))
+	}
+	return b
 }
 
 func tableMeta(t simpledb.VerifTable) M {
